@@ -936,6 +936,9 @@ class Interp(object):
                 return self._global_value(r)
         if name in bm.BUILTIN_NAMES:
             return ExtRef('builtins.' + name)
+        import builtins as _b
+        if hasattr(_b, name) and name not in ('True', 'False', 'None', 'NotImplemented'):
+            return ExtRef('builtins.' + name)        # a real builtin the model may not cover: calling it decides (never a NameError)
         if name in ('True', 'False', 'None'):
             return {'True': True, 'False': False, 'None': None}[name]
         if name == 'NotImplemented':
